@@ -50,6 +50,13 @@ variable {α β : Type}
 
 def nBytes (X : Ctx α β) : Bytes := Bytes.ofNatMin X.n
 def nMinus1Bytes (X : Ctx α β) : Bytes := Bytes.ofNatMin (X.n - 1)
+/-- `nBytes33 = append([]byte{0}, nBytes...)` -/
+def nBytes33 (X : Ctx α β) : Bytes := 0 :: nBytes X
+
+/-- `x.FillBytes(buf)` with `len(buf) = len`: the value big-endian, zero-extended to the length of the
+    buffer; panics ("buffer too small to fit value") when it does not fit -/
+def fillBytes (len v : Nat) : Outcome Bytes :=
+  if v < 256 ^ len then .ok (Bytes.ofNatBE len v) else .panic
 
 def scalarBaseMult (X : Ctx α β) (k : Bytes) : Outcome (Point.Pt α) :=
   Curve.scalarBaseMult (Curve.pointOps X.C) k X.first X.second 6 3 14 4
@@ -133,18 +140,27 @@ def signLoop (X : Ctx α β) (priv e : Bytes) : Nat → Script → Outcome ((Byt
           if rInt = 0 then signLoop X priv e fuel sc' else
           let k := Bytes.toNatBE K
           let rkInt := rInt + k
-          let rkBytes := Bytes.ofNatMin rkInt
-          if rkBytes.length = 32 ∧ rkBytes = nBytes X then signLoop X priv e fuel sc' else
-          let dInt := Bytes.toNatBE priv
-          let d1Int := dInt + 1
-          let buf := Point.pad32 (Bytes.ofNatMin d1Int)
-          match Field.scalarSetBytes X.S buf with
-          | .ok d1 =>
-            let d1Inv := Field.invert X.S d1
-            let sInt := (rkInt * Field.toNat X.S d1Inv + (X.n - rInt % X.n)) % X.n
-            if sInt = 0 then signLoop X priv e fuel sc' else
-            .ok ((ensure32 rInt, ensure32 sInt), sc')
-          | _ => .panic        -- d1.SetBytes error ignored by the code: d1 stays zero (excluded: priv ≤ n-2)
+          -- var rkBuf [33]byte; rkInt.FillBytes(rkBuf[:])   (r + k < 2n < 2^257 always fits)
+          match fillBytes 33 rkInt with
+          | .ok rkBuf =>
+            match Utils.constantTimeCmp (some rkBuf) (some (nBytes33 X)) 33 with
+            | .ok c33 =>
+              if c33 = 0 then signLoop X priv e fuel sc' else
+              let dInt := Bytes.toNatBE priv
+              let d1Int := dInt + 1
+              -- var buf [32]byte; d1Int.FillBytes(buf[:])   (1 + d ≤ n - 1 always fits)
+              match fillBytes 32 d1Int with
+              | .ok buf =>
+                match Field.scalarSetBytes X.S buf with
+                | .ok d1 =>
+                  let d1Inv := Field.invert X.S d1
+                  let sInt := (rkInt * Field.toNat X.S d1Inv + (X.n - rInt % X.n)) % X.n
+                  if sInt = 0 then signLoop X priv e fuel sc' else
+                  .ok ((ensure32 rInt, ensure32 sInt), sc')
+                | _ => .panic    -- d1.SetBytes error ignored by the code: d1 stays zero (excluded: priv ≤ n-2)
+              | _ => .panic
+            | _ => .panic
+          | _ => .panic
         | .err => .err
         | .panic => .panic
       | _ => .panic
